@@ -1,0 +1,45 @@
+//go:build verif
+
+// Contracts for package util, read by /verif/govc (comment-only file).
+
+package util
+
+// ---- C29: ID sequence (sequential specification + lock coverage) ----
+// Ghost position inside the current cycle: next == min + pos.
+//@ ghost IDSequence.pos uint64
+//@ ghost IDSequence.cycle uint64
+//@ pred seqInv(c *IDSequence) = c.min <= c.max && uint64(c.next) == uint64(c.min) + c.pos &&
+//@      c.pos <= uint64(c.max) - uint64(c.min) && (c.overflow ==> c.pos == 0)
+
+//@ func NewIDSequence
+//@   nopanic [C29]
+//@   requires [C29] range: minID <= maxID
+//@   ensures [C29] init: fresh(result) && seqInv(result) && result.pos == 0 && result.cycle == 0 && !result.overflow &&
+//@      result.min == minID && result.max == maxID
+//@   at return ghost result.pos = 0
+//@   at return ghost result.cycle = 0
+
+//@ func (*IDSequence).Next
+//@   nopanic [C29]
+//@   requires [C29] inv: seqInv(c)
+//@   guarded [C29] lock: next, overflow
+//@   assigns c.next, c.overflow, c.pos, c.cycle
+//@   at return ghost c.cycle = ite(c.pos == uint64(c.max) - uint64(c.min), c.cycle + 1, c.cycle)
+//@   at return ghost c.pos = ite(c.pos == uint64(c.max) - uint64(c.min), 0, c.pos + 1)
+//@   ensures [C29] keeps_inv: seqInv(c)
+//@   ensures [C29] in_order: uint64(id) == uint64(c.min) + old(c.pos)
+//@   ensures [C29] in_range: c.min <= id && id <= c.max
+//@   ensures [C29] wraps: old(c.pos) == uint64(c.max) - uint64(c.min) ==> c.pos == 0 && c.cycle == old(c.cycle) + 1
+//@   ensures [C29] advances: old(c.pos) < uint64(c.max) - uint64(c.min) ==> c.pos == old(c.pos) + 1 && c.cycle == old(c.cycle)
+//@   ensures [C29] overflow_reported: overflow == old(c.overflow)
+//@   ensures [C29] overflow_first_after_wrap: c.overflow == (old(c.pos) == uint64(c.max) - uint64(c.min))
+//@   ensures [C29] immutable_range: c.min == old(c.min) && c.max == old(c.max)
+
+// ---- C29: client state (sync/atomic) ----
+//@ func (*ClientState).Set
+//@   nopanic [C29]
+//@   assigns deref(s)
+//@   ensures [C29] swap: result == old(deref(s)) && deref(s) == new
+//@ func (*ClientState).Get
+//@   nopanic [C29]
+//@   ensures [C29] load: result == deref(s)
